@@ -170,10 +170,16 @@ class HistGen:
             d0 = max(1, rng.getrandbits(max(1, sb + rng.randrange(-4, 5))))
             skew = rng.choice([0, 0, 0, rng.randrange(-40, 41)])
             d1 = max(1, min(1 << 100, int(d0 * 2.0 ** skew))) if skew else max(1, rng.getrandbits(max(1, sb + rng.randrange(-4, 5))))
-            if rng.random() < 0.2:
+            r_ = rng.random()
+            if r_ < 0.3:
                 d0, d1 = max(d0, p.mins[0]), max(d1, p.mins[1])
-            if rng.random() < 0.1:
-                d0 = p.mins[0] + rng.choice([-1, 0, 1]) if p.mins[0] else d0
+            elif r_ < 0.45:
+                # around the configured minimums, either side short by one
+                d0 = max(1, p.mins[0] + rng.choice([-1, 0, 0, 1])) if p.mins[0] else d0
+                d1 = max(1, p.mins[1] + rng.choice([-1, 0, 0, 1])) if p.mins[1] else d1
+            elif r_ < 0.5 and p.mins[0] != p.mins[1]:
+                # satisfies the minimums only if they are compared with the wrong deposit
+                d0, d1 = max(1, p.mins[1]), max(1, p.mins[0])
             while d0 * d1 >= 1 << 190:
                 d0 = max(1, d0 >> 4)
                 d1 = max(1, d1 >> 4)
@@ -200,6 +206,8 @@ class HistGen:
         receiver = None
         if rng.random() < 0.25:
             receiver = rng.choice(self.recipients)
+        if S == 0 and actor not in p.whitelist and p.whitelist and rng.random() < 0.5:
+            receiver = rng.choice(p.whitelist)   # stranger provides "for" a whitelisted account
         op = w.op_provide(actor, p, amounts, receiver=receiver, slippage=slippage, reverse=rng.random() < 0.3)
         return op, [(p.addr, {"pool": {}})]
 
